@@ -29,12 +29,13 @@ def volume_layout(rng, w, uid, profile="mixed"):
         w.mount(R + b"/vol1/nest")
         vols.append(R + b"/vol1/nest")
     for v in vols:
-        st = rng.choice(["absent", "absent", "sticky", "sticky", "nonsticky", "link-sticky", "link-nonsticky", "file"])
+        st = rng.choice(["absent", "absent", "sticky", "sticky", "nonsticky", "nonsticky", "link-sticky", "link-nonsticky", "file"])
         t = v + b"/" + DOT_T
         if st == "sticky":
-            w.dir(t, 0o1777)
+            w.dir(t, rng.choice([0o1777, 0o1777, 0o1755, 0o5777, 0o1700]))
         elif st == "nonsticky":
-            w.dir(t, 0o777)
+            # no sticky bit, whatever else is set (setgid directories are common on shared volumes)
+            w.dir(t, rng.choice([0o777, 0o777, 0o755, 0o2777, 0o2775, 0o4777, 0o6777]))
         elif st.startswith("link"):
             real = v + b"/real-trash"
             w.dir(real, 0o1777 if st == "link-sticky" else 0o777)
@@ -274,7 +275,7 @@ def gen_put_world(rng, profile="mixed"):
         replies = [rng.choice([b"y", b"Y", b"yes", b"n", b"", b"x", b"N", b" y"]) for _ in range(rng.randint(0, nargs))]
         stdin = b"".join(r + b"\n" for r in replies)
     world = w.world(env=env, uid=uid, cwd=cwd, cmd="put", args=args, opts=opts, argv=put_argv(opts, args),
-                    stdin=stdin, randints=[rng.randint(0, 65535) for _ in range(3)], meta=meta)
+                    stdin=stdin, randints=[rng.randint(0, 65535) for _ in range(16)], meta=meta)
     return world
 
 
@@ -283,8 +284,9 @@ def gen_put_world(rng, profile="mixed"):
 # ---------------------------------------------------------------------------------------------------
 
 DATES = ["2000-01-01T00:00:00\x0c", "2000-01-01T00:00:00\x1d", "2000-01-01T00:00:00\x0b", "2020-01-01T00:00:00", "2024-02-29T23:59:59", "2024-03-01T12:00:00", "2024-03-01T12:00:01", "2024-03-02T12:00:00",
-         "2023-12-31T00:00:00", "1999-12-31T23:59:59", "2030-06-15T08:30:00", "2024-3-1T9:5:7", "2024-03-01t12:00:00"]
-BAD_DATES = ["2024-02-30T00:00:00", "yesterday", "", "2024-03-01", "2024-03-01T12:00:60", "2024-03-01T12:00:00 "]
+         "2023-12-31T00:00:00", "1999-12-31T23:59:59", "2030-06-15T08:30:00", "2024-3-1T9:5:7", "2024-03-01t12:00:00",
+         "2001-01-01T12:00:00+0100", "2001-01-01T12:00:00Z", "2001-01-01T12:00:00-05:00", "2001-01-01T12:00:00 UTC"]
+BAD_DATES = ["2024-02-30T00:00:00", "yesterday", "", "2024-03-01", "2024-03-01T12:00:60", "2024-03-01T12:00:00 ", "2002-02-02T02:02:02+0000", "2002-02-02T02:02:02.000"]
 MALFORMED = ["non-trashinfo", "empty", "truncated", "binary", "non-utf8", "no-path", "no-date", "bad-date", "info-only",
              "orphan", "odd-stem", "info-is-dir", "info-dangling-link", "dup-keys-crlf"]
 ORIGIN_NAMES = [b"report.txt", b"a b", b"foo", b"foobar", b"foo.o", b"FOO", b"caf\xc3\xa9", b"x%y", b"new\nline", b"-dash", b"d1",
@@ -358,7 +360,7 @@ def add_malformed(rng, w, tdir, kind, i):
         w.file(info + n + b".trashinfo", bytes(range(256)) * 2)
         w.file(tdir + b"/files/" + n, b"p")
     elif kind == "non-utf8":
-        w.file(info + n + b".trashinfo", b"[Trash Info]\nPath=" + rng.choice([b"/SBX/w/\xff\xfe", b"w/\xe9t\xe9"]) + b"\nDeletionDate=2024-03-01T12:00:00\n")
+        w.file(info + n + b".trashinfo", b"[Trash Info]\nPath=" + rng.choice([b"/SBX/w/\xff\xfe-%d" % i, b"w/\xe9t\xe9-%d" % i]) + b"\nDeletionDate=2024-03-01T12:00:00\n")
         w.file(tdir + b"/files/" + n, b"p")
     elif kind == "no-path":
         w.file(info + n + b".trashinfo", b"[Trash Info]\nDeletionDate=2020-01-01T00:00:00\n")
